@@ -174,7 +174,7 @@ def _trilist(g, n):
     return tl
 
 
-def _edges(g, n, tree=False):
+def _edges(g, n, tree=False, loops=False):
     if tree:
         # breadth-first numbering (non-decreasing parents): menpo's Tree constructor compares
         # scipy's BFS edge order with the CSR order and rejects other numberings of valid trees
@@ -188,7 +188,7 @@ def _edges(g, n, tree=False):
             e.add((i, i + 1))
     for _ in range(int(g.randint(0, n))):
         a, b = sorted(int(v) for v in g.randint(0, n, size=2))
-        if a != b:
+        if a != b or loops:
             e.add((a, b))
     return np.array(sorted(e)).reshape(-1, 2)
 
@@ -206,9 +206,9 @@ def make_shape(kind, seed, n, d):
         tex = Image(g.rand(3, 4, 5))
         return TexturedTriMesh(pts, g.rand(n, 2), tex, trilist=_trilist(g, n))
     if kind == "PointUndirectedGraph":
-        return PointUndirectedGraph.init_from_edges(pts, _edges(g, n))
+        return PointUndirectedGraph.init_from_edges(pts, _edges(g, n, loops=bool(seed & 4)))
     if kind == "PointDirectedGraph":
-        return PointDirectedGraph.init_from_edges(pts, _edges(g, n))
+        return PointDirectedGraph.init_from_edges(pts, _edges(g, n, loops=bool(seed & 4)))
     if kind == "PointTree":
         return PointTree.init_from_edges(pts, _edges(g, n, tree=True), root_vertex=0)
     if kind == "LabelledPointUndirectedGraph":
@@ -224,7 +224,7 @@ def make_shape(kind, seed, n, d):
             lab["rest"] = ~cover
         lab2 = OrderedDict((name, m) for name, m in lab.items() if m.any())
         # (init_from_indices_mapping would read a (2, 2) edge array as an adjacency matrix)
-        return LabelledPointUndirectedGraph.init_from_edges(pts, _edges(g, n), lab2)
+        return LabelledPointUndirectedGraph.init_from_edges(pts, _edges(g, n, loops=bool(seed & 4)), lab2)
     raise ValueError(kind)
 
 
